@@ -223,6 +223,23 @@ func (env *Env) callEffects(sc *Script, fn *ssa.Function, c *ssa.CallCommon, e m
 	if sig.Results().Len() > 0 {
 		e["alloc"] = true
 	}
+	if g != nil {
+		for _, a := range c.Args {
+			if al, ok := cellRoot(a); ok {
+				if _, isAlloc := a.(*ssa.Alloc); isAlloc && al.Heap {
+					continue
+				}
+				if pt := deref(a.Type()); pt != nil {
+					if _, isArr := pt.Underlying().(*types.Array); isArr {
+						continue
+					}
+					e[g.cellOf[al]] = true
+					e["alloc"] = true
+					env.typeStoreEffects(sc, pt, e, false)
+				}
+			}
+		}
+	}
 	if c.IsInvoke() {
 		ct, sf := env.lookupIfaceContract(c.Method, c.Value.Type())
 		if ct != nil {
